@@ -25,7 +25,8 @@ THEOREMS = ['C04_tref_split_invariance', 'C04_tref_split_invariance_moist', 'C04
             'C04_whole_state_temperature_invariance', 'C04_whole_state_divergence_invariance',
             'C04_whole_state_vorticity_invariance', 'C04_whole_state_implicit_linear', 'C04_whole_state_resolvent',
             'C04_whole_state_hyps_satisfiable', 'C04_whole_state_resolvent_hyps_satisfiable', 'C04_whole_state_is_assembly_replay',
-            'C04_whole_state_split_invariance', 'C04_whole_state_split_hyps_satisfiable', 'C04_whole_state_moist_is_assembly']
+            'C04_whole_state_split_invariance', 'C04_whole_state_split_hyps_satisfiable', 'C04_whole_state_moist_is_assembly',
+            'C04_model_is_source']
 LEVEL = 'proof'
 LEVEL_TEXT = ('machine-checked theorems (Coq) for every field, every layer count K>=1, all level sets, all column data and '
               'any two reference profiles with the same absolute temperature: the nodal temperature tendency '
